@@ -590,6 +590,34 @@ example : storeOk ⟨"", ""⟩ [((some "urn:u", "a"), ['1'])] ∧ storeOk exCtx 
     subst he
     cases hns
 
+/-- the name an attribute object reports is the name the iteration over the collection reports for the store key
+    the object stands for - whatever spelling it was fetched or renamed with (so an object that is dropped and
+    fetched again, e.g. after its node's wrapper was collected, reports the same name) -/
+theorem c11_view_name_is_iterated_name (c : Ctx) (s : State) (vid : Nat) (v : View)
+    (hv : getView s vid = some v) :
+    viewName c s vid = some (iterName c (etreeKey c v.qname)) := by
+  unfold viewName
+  rw [hv]
+  simp only [Option.map_some, Option.some.injEq, reportedName, etreeKey, iterName]
+  by_cases h1 : v.qname.1 = ""
+  · simp [h1]
+  · by_cases h2 : c.defaultNs = v.qname.1
+    · simp [h1, h2]
+    · simp [h1, h2]
+
+/-- two spellings of one name give one reported name -/
+theorem c11_view_name_spelling (c : Ctx) (q₁ q₂ : QName) (h : etreeKey c q₁ = etreeKey c q₂) :
+    reportedName c q₁ = reportedName c q₂ := by
+  have e : ∀ q, reportedName c q = iterName c (etreeKey c q) := by
+    intro q
+    simp only [reportedName, etreeKey, iterName]
+    by_cases h1 : q.1 = ""
+    · simp [h1]
+    · by_cases h2 : c.defaultNs = q.1
+      · simp [h1, h2]
+      · simp [h1, h2]
+  rw [e q₁, e q₂, h]
+
 /-- a plain mapping whose keys denote different attributes (hypothesis of c11_eq_mapping_dict) that compares equal,
     in three accessor forms -/
 example : ([(Accessor.pair "" "a", ['1']), (Accessor.clark "urn:q" "b", ['2'])].map
